@@ -432,3 +432,10 @@ for var, defs in (("replace", ["-DHOME_SAME"]), ("new", [])):
     O("C11.inject.%s" % var, ["C11", "C12"], "h_C11.c", "h_C11_inject",
       "_inject_task1 (%s): objects without occurrences refused; a UID queued by another user is never replaced, stopped or freed; same owner replaces in place keeping the running count; a new UID is queued, owned by and run as the requester; no other task touched" % ("UID already queued" if var == "replace" else "UID not queued"),
       ["_inject_task1", "make_task", "get_task", "compl_uid", "compl_owner"], kind="bounded", bound="table of 16 slots", defines=defs, **E11)
+O("C11.cmd_ical", ["C11", "C06"], "h_C11b.c", "h_C11_cmd_ical",
+  "cmd_ical over every script of up to 3 schedule/cancel instructions and outcomes: each instruction is carried out once and gets exactly one reply that says what happened to it; the user is noted for checkpointing iff something succeeded",
+  ["cmd_ical"], dfcc=True, replace=["_inject_task1", "_eject_task1", "cmd_ical_rpl", "add_chkpnt"],
+  replace_status={"_inject_task1": "outcome scripted here; behaviour discharged by C11.inject.*", "_eject_task1": "outcome scripted here; behaviour discharged by C11.eject",
+                  "cmd_ical_rpl": "recording contract (reply text not covered)", "add_chkpnt": "recording contract"},
+  kind="bounded", bound="up to 3 instructions per request", unwind=6,
+  solver=["minisat", "kissat"], timeout={"quick": 600, "thorough": 1800}, replay=False, replay_note="callees replaced by contracts")
